@@ -226,11 +226,12 @@ def lowerChar (c : Char) : Char := if 'A' ≤ c ∧ c ≤ 'Z' then Char.ofNat (c
 def normPolicy (v : String) : List Char :=
   (((v.toList.dropWhile isSpace).reverse.dropWhile isSpace).reverse).map lowerChar
 
-/-- `filterManifestsToKeep` on the manifest (not the live object): keep / delete / neither -/
-def keepClass (o : Obj) : Option Bool :=     -- some true = keep, some false = delete, none = dropped from both lists
+/-- `filterManifestsToKeep` on the manifest (not the live object): keep (some true) or delete
+(some false); any value of the annotation other than keep means delete -/
+def keepClass (o : Obj) : Option Bool :=
   match o.annos.get? policyAnno with
   | none => some false
-  | some v => if normPolicy v = ['k', 'e', 'e', 'p'] then some true else none
+  | some v => if normPolicy v = ['k', 'e', 'e', 'p'] then some true else some false
 
 structure UnRes where
   store : Store
